@@ -203,7 +203,7 @@ def strat_column(draw):
         "cells": draw(_cells_strategy(dtype, n)),
         "index": draw(_index_strategy(n)),
         "pred": draw(_pred_strategy(dtype)),
-        "ignore_na": draw(st.booleans()),
+        "ignore_na": draw(st.sampled_from([True, False, True])),
         "n": draw(st.sampled_from([None, 1, 1, 2, 3])),
         "entry": draw(st.sampled_from(["column", "series"])),
         "vform": draw(st.sampled_from(["native", "map", "ew"])),
@@ -477,7 +477,7 @@ def strat_frame(draw):
     if pred["k"] in ("col_gt", "row_lt", "row_const"):
         form = draw(st.sampled_from(["vec", "ew"]))
     return {"a": a, "b": b, "index": draw(_index_strategy(n)), "pred": pred, "form": form,
-            "ignore_na": draw(st.booleans()), "n": draw(st.sampled_from([None, None, 1, 2])),
+            "ignore_na": draw(st.sampled_from([True, False, True])), "n": draw(st.sampled_from([None, None, 1, 2])),
             "lazy": draw(st.booleans())}
 
 
@@ -755,7 +755,7 @@ def strat_groupby(draw):
             "groups": groups, "unobserved_group": draw(st.booleans()) if cols == ["c"] else False,
             "level": draw(st.sampled_from(["column", "column", "frame"])),
             "out": draw(st.sampled_from(["bool", "series"])), "a": draw(st.integers(-3, 1)),
-            "ignore_na": draw(st.booleans()), "parser": draw(st.sampled_from([False, False, False, True])),
+            "ignore_na": draw(st.sampled_from([True, False, True])), "parser": draw(st.sampled_from([False, False, False, True])),
             "raise_warning": draw(st.booleans())}
 
 
@@ -988,7 +988,7 @@ def eval_alias(case):
     ig = kw.get("ignore_na", True)
     on_bound = any((not M.is_null(x)) and x in args[:2] for x in py)
     ev.nontrivial = bool(nulls) or on_bound
-    ev.labels += [f"alias={alias}", f"alias:dtype={dtype}", "alias:kw=" + ("+".join(sorted(kw)) or "none"),
+    ev.labels += [f"alias={alias}", f"alias:dtype={dtype}", *(["alias:kw=" + k_ for k_ in sorted(kw)] or ["alias:kw=none"]),
                   "alias:has-null" if nulls else "alias:no-null", "alias:on-bound" if on_bound else "alias:off-bound"]
     try:
         A = getattr(pa.Check, alias)(*args, **kw)
@@ -1076,7 +1076,7 @@ def strat_polars(draw):
     if draw(st.integers(0, 2)) == 0:
         fill = "" if dtype == "str" else 0
         cells = [fill if c is None else c for c in cells]
-    return {"dtype": dtype, "cells": cells, "pred": pred, "ignore_na": draw(st.booleans()),
+    return {"dtype": dtype, "cells": cells, "pred": pred, "ignore_na": draw(st.sampled_from([True, False, True])),
             "frame": draw(st.sampled_from(["df", "lf"])), "lazy": draw(st.booleans())}
 
 
@@ -1262,21 +1262,21 @@ def selftest():
 
 
 FAMILIES = [
-    Family("column", eval_column, strategy=strat_column, n_quick=550, n_thorough=6000, shards_quick=4,
+    Family("column", eval_column, strategy=strat_column, n_quick=450, n_thorough=5000, shards_quick=4,
            shards_thorough=16, setup=_setup,
            required_labels=["has-null", "null-fails", "idx=dup", "n=set", "ignore_na=False", "ref=fail", "empty"]),
-    Family("frame", eval_frame, strategy=strat_frame, n_quick=350, n_thorough=4000, shards_quick=3,
+    Family("frame", eval_frame, strategy=strat_frame, n_quick=300, n_thorough=3000, shards_quick=3,
            shards_thorough=16, setup=_setup,
            required_labels=["frame:partial-null-row", "frame:form=ew", "frame:pred=cell_gt", "frame:pred=all_gt",
                             "frame:behind-known(no null or ignore_na=False)", "frame:ref=fail"]),
-    Family("groupby", eval_groupby, strategy=strat_groupby, n_quick=350, n_thorough=4000, shards_quick=3,
+    Family("groupby", eval_groupby, strategy=strat_groupby, n_quick=300, n_thorough=3000, shards_quick=3,
            shards_thorough=16, setup=_setup,
            required_labels=["gb:how=call", "gb:how=call_derived", "gb:groups=subset", "gb:has-null", "gb:level=frame",
                             "gb:empty-group(unobserved category)", "gb:behind-known", "gb:cols=g+h"]),
-    Family("alias", eval_alias, strategy=strat_alias, n_quick=300, n_thorough=3000, shards_quick=2,
+    Family("alias", eval_alias, strategy=strat_alias, n_quick=250, n_thorough=2500, shards_quick=2,
            shards_thorough=8, setup=_setup,
            required_labels=["alias=" + a_ for a_ in sorted(M.ALIASES)] + ["alias:has-null", "alias:on-bound"]),
-    Family("polars", eval_polars, strategy=strat_polars, n_quick=120, n_thorough=1500, shards_quick=3,
+    Family("polars", eval_polars, strategy=strat_polars, n_quick=120, n_thorough=1200, shards_quick=3,
            shards_thorough=16, setup=_setup_polars,
            required_labels=["pl:has-null", "pl:behind-known", "pl:ignore_na=False", "pl:ref=fail", "pl:lf"]),
 ]
